@@ -45,6 +45,34 @@ class CallGraph(object):
         self.registry_keys = set((m.name, m.qualname_of(f)) for (m, f) in model.registry.values())
         for k in list(self.funcs):
             self._build(k)
+        # functools.singledispatch: calling the generic function may run any implementation registered on it
+        # (@generic.register[(cls)] def impl ...  /  generic.register(cls, impl), also inside a module-level loop)
+        for m in model.modules.values():
+            generics = {}
+            for st in m.tree.body:
+                if isinstance(st, ast.FunctionDef) and any('singledispatch' in src(d) for d in st.decorator_list):
+                    generics[st.name] = (m.name, m.qualname_of(st))
+            if not generics:
+                continue
+            for st in m.tree.body:
+                if isinstance(st, ast.FunctionDef):
+                    for d in st.decorator_list:
+                        t = d.func if isinstance(d, ast.Call) else d
+                        if isinstance(t, ast.Attribute) and t.attr == 'register' and isinstance(t.value, ast.Name) and t.value.id in generics:
+                            ik = (m.name, m.qualname_of(st))
+                            if ik in self.funcs and generics[t.value.id] in self.edges:
+                                self.edges[generics[t.value.id]].add(ik)
+                    continue
+                for n in ast.walk(st):
+                    if isinstance(n, ast.Call) and isinstance(n.func, ast.Attribute) and n.func.attr == 'register' \
+                            and isinstance(n.func.value, ast.Name) and n.func.value.id in generics:
+                        for a in n.args:
+                            if isinstance(a, (ast.Name, ast.Attribute)):
+                                r = model.resolve_attr_chain(m, a)
+                                if r and r[0] == 'func':
+                                    ik = (r[1].name, r[1].qualname_of(r[2]))
+                                    if ik in self.funcs and generics[n.func.value.id] in self.edges:
+                                        self.edges[generics[n.func.value.id]].add(ik)
         # listeners registered through the emitter's own wrappers are callable from its delivery method
         for k, (m, c) in list(self.cls_of.items()):
             mm, f = self.funcs[k]
